@@ -487,6 +487,8 @@ struct Case {
     want_log: Vec<i64>,
     dead_slots: usize,
     nested: bool,
+    /// condition-shape family: no separate replaced program (oracles (b) and (c) only)
+    cond_family: bool,
 }
 
 fn args_for(outer: Sel, inner: Option<Sel>, payload: bool) -> Vec<Val> {
@@ -558,7 +560,7 @@ fn cases(tier: Tier) -> Vec<Case> {
         keyed.name = "f".into();
         let args = args_for(sel, nested.map(|n| n.2), payload);
         let key = format!("{} :: {}", print_fn(&keyed), crate::c22::tuple_text_named(&SIG, &args));
-        out.push(Case { p, p_replaced, key, args, want, want_log: log, dead_slots: dead, nested: nested.is_some() });
+        out.push(Case { p, p_replaced, key, args, want, want_log: log, dead_slots: dead, nested: nested.is_some(), cond_family: false });
     };
     for k in K::outer_kinds() {
         for sel in k.sels() {
@@ -583,6 +585,248 @@ fn cases(tier: Tier) -> Vec<Case> {
         }
     }
     let _ = K::is_stmt;
+    out.extend(cond_cases(tier));
+    out
+}
+
+// ---------------------------------------------------------------------------------------------
+// Condition positions: every conditional construct whose CONDITION is a short-circuit expression
+// over comparison / negation forms, under every boolean assignment.
+
+#[derive(Clone, Copy, Debug, PartialEq, Eq)]
+enum At {
+    Eq,
+    Ne,
+    Lt,
+    Gt,
+    Le,
+    Ge,
+    NotB,
+    B,
+    IsNone,
+    IsSome,
+    True,
+    False,
+    Probe(bool),
+}
+
+#[derive(Clone, Debug)]
+enum Cd {
+    A(At, i64),
+    And(Box<Cd>, Box<Cd>),
+    Or(Box<Cd>, Box<Cd>),
+    Not(Box<Cd>),
+}
+
+#[derive(Clone, Copy)]
+struct Asg {
+    n0: i64,
+    n1: i64,
+    b0: bool,
+    o0: Option<i64>,
+}
+
+fn at_value(a: At, g: &Asg) -> bool {
+    match a {
+        At::Eq => g.n0 == g.n1,
+        At::Ne => g.n0 != g.n1,
+        At::Lt => g.n0 < g.n1,
+        At::Gt => g.n0 > g.n1,
+        At::Le => g.n0 <= g.n1,
+        At::Ge => g.n0 >= g.n1,
+        At::NotB => !g.b0,
+        At::B => g.b0,
+        At::IsNone => g.o0.is_none(),
+        At::IsSome => g.o0.is_some(),
+        At::True => true,
+        At::False => false,
+        At::Probe(v) => v,
+    }
+}
+
+fn at_expr(a: At, id: i64) -> Expr {
+    let n0 = || bx(var("n0".into()));
+    let n1 = || bx(var("n1".into()));
+    match a {
+        At::Eq => Expr::Bin(Bin::Eq, n0(), n1()),
+        At::Ne => Expr::Bin(Bin::Ne, n0(), n1()),
+        At::Lt => Expr::Bin(Bin::Lt, n0(), n1()),
+        At::Gt => Expr::Bin(Bin::Gt, n0(), n1()),
+        At::Le => Expr::Bin(Bin::Le, n0(), n1()),
+        At::Ge => Expr::Bin(Bin::Ge, n0(), n1()),
+        At::NotB => Expr::Not(bx(var("b0".into()))),
+        At::B => var("b0".into()),
+        At::IsNone => Expr::Is(bx(var("o0".into())), false),
+        At::IsSome => Expr::Is(bx(var("o0".into())), true),
+        At::True => Expr::Bool(true),
+        At::False => Expr::Bool(false),
+        At::Probe(v) => Expr::Ffi("probe", "hitb", vec![Expr::Int(id), Expr::Bool(v)]),
+    }
+}
+
+fn cd_expr(c: &Cd) -> Expr {
+    match c {
+        Cd::A(a, id) => at_expr(*a, *id),
+        Cd::And(a, b) => Expr::Bin(Bin::And, bx(cd_expr(a)), bx(cd_expr(b))),
+        Cd::Or(a, b) => Expr::Bin(Bin::Or, bx(cd_expr(a)), bx(cd_expr(b))),
+        Cd::Not(a) => Expr::Not(bx(cd_expr(a))),
+    }
+}
+
+/// Short-circuit evaluation by construction: value, probes logged, operands skipped.
+fn cd_eval(c: &Cd, g: &Asg, live: bool, log: &mut Vec<i64>, skipped: &mut usize) -> bool {
+    match c {
+        Cd::A(a, id) => {
+            if !live {
+                *skipped += 1;
+            } else if matches!(a, At::Probe(_)) {
+                log.push(*id);
+            }
+            at_value(*a, g)
+        }
+        Cd::And(a, b) => {
+            let l = cd_eval(a, g, live, log, skipped);
+            let r = cd_eval(b, g, live && l, log, skipped);
+            l && r
+        }
+        Cd::Or(a, b) => {
+            let l = cd_eval(a, g, live, log, skipped);
+            let r = cd_eval(b, g, live && !l, log, skipped);
+            l || r
+        }
+        Cd::Not(a) => !cd_eval(a, g, live, log, skipped),
+    }
+}
+
+fn number(c: &mut Cd, next: &mut i64) {
+    match c {
+        Cd::A(_, id) => {
+            *id = *next;
+            *next += 1;
+        }
+        Cd::And(a, b) | Cd::Or(a, b) => {
+            number(a, next);
+            number(b, next);
+        }
+        Cd::Not(a) => number(a, next),
+    }
+}
+
+fn cond_cases(tier: Tier) -> Vec<Case> {
+    let full = [
+        At::Eq, At::Ne, At::Lt, At::Gt, At::Le, At::Ge, At::NotB, At::B, At::IsNone, At::IsSome, At::True, At::False, At::Probe(true),
+        At::Probe(false),
+    ];
+    let small: Vec<At> = match tier {
+        Tier::Quick => vec![At::Ne, At::Ge, At::NotB, At::IsNone, At::Eq, At::Probe(true), At::Probe(false)],
+        Tier::Thorough => full.to_vec(),
+    };
+    let a = |x: At| Box::new(Cd::A(x, 0));
+    let mut conds: Vec<Cd> = Vec::new();
+    for x in full {
+        for y in full {
+            conds.push(Cd::And(a(x), a(y)));
+            conds.push(Cd::Or(a(x), a(y)));
+            conds.push(Cd::Not(Box::new(Cd::And(a(x), a(y)))));
+            conds.push(Cd::Not(Box::new(Cd::Or(a(x), a(y)))));
+        }
+    }
+    for x in &small {
+        for y in &small {
+            for z in &small {
+                let (x, y, z) = (*x, *y, *z);
+                conds.push(Cd::And(Box::new(Cd::And(a(x), a(y))), a(z)));
+                conds.push(Cd::Or(Box::new(Cd::Or(a(x), a(y))), a(z)));
+                conds.push(Cd::Or(Box::new(Cd::And(a(x), a(y))), a(z)));
+                conds.push(Cd::And(Box::new(Cd::Or(a(x), a(y))), a(z)));
+                conds.push(Cd::And(a(x), Box::new(Cd::Or(a(y), a(z)))));
+                conds.push(Cd::Or(a(x), Box::new(Cd::And(a(y), a(z)))));
+            }
+        }
+    }
+    let mut asgs = Vec::new();
+    for (n0, n1) in [(1, 2), (2, 2), (3, 2)] {
+        for b0 in [true, false] {
+            for o0 in [None, Some(5)] {
+                asgs.push(Asg { n0, n1, b0, o0 });
+            }
+        }
+    }
+    let params: Vec<(String, Ty)> = SIG.iter().map(|(n, t)| (n.to_string(), *t)).collect();
+    let hit = |id: i64| Expr::Ffi("probe", "hit", vec![Expr::Int(id)]);
+    let mut out = Vec::new();
+    for mut cd in conds {
+        let mut next = 2i64; // id 1 is the first branch of the else-if position
+        number(&mut cd, &mut next);
+        let (ida, idb) = (next, next + 1);
+        let c = cd_expr(&cd);
+        // positions: (name, body)
+        let positions: Vec<Vec<Stmt>> = vec![
+            vec![Stmt::If(vec![(c.clone(), vec![Stmt::Return(hit(ida))])], Some(vec![Stmt::Return(hit(idb))]))],
+            vec![Stmt::If(vec![(c.clone(), vec![Stmt::Return(hit(ida))])], None), Stmt::Return(hit(idb))],
+            vec![Stmt::If(
+                vec![(var("b1".into()), vec![Stmt::Return(hit(1))]), (c.clone(), vec![Stmt::Return(hit(ida))])],
+                Some(vec![Stmt::Return(hit(idb))]),
+            )],
+            vec![Stmt::Return(Expr::If(bx(c.clone()), bx(hit(ida)), bx(hit(idb))))],
+            vec![Stmt::Check(c.clone(), Expr::Ret(bx(hit(idb)))), Stmt::Return(hit(ida))],
+            vec![Stmt::Return(Expr::Match(
+                bx(c.clone()),
+                vec![
+                    (Pat::Vals(vec![PatVal::Lit(Expr::Bool(true))]), hit(ida)),
+                    (Pat::Vals(vec![PatVal::Lit(Expr::Bool(false))]), hit(idb)),
+                ],
+            ))],
+        ];
+        // distinct behaviours of the condition over the assignments
+        let mut seen: Vec<(bool, Vec<i64>, usize)> = Vec::new();
+        let mut chosen: Vec<(Asg, bool, Vec<i64>, usize)> = Vec::new();
+        for g in &asgs {
+            let mut log = Vec::new();
+            let mut skipped = 0usize;
+            let v = cd_eval(&cd, g, true, &mut log, &mut skipped);
+            let sig = (v, log.clone(), skipped);
+            if !seen.contains(&sig) {
+                seen.push(sig);
+                chosen.push((*g, v, log, skipped));
+            }
+        }
+        for body in positions {
+            let p = FnDef { name: String::new(), params: params.clone(), ret: Ty::Int, body };
+            let mut keyed = p.clone();
+            keyed.name = "f".into();
+            let text = print_fn(&keyed);
+            for (g, v, log, skipped) in &chosen {
+                let taken = if *v { ida } else { idb };
+                let mut want_log = log.clone();
+                want_log.push(taken);
+                let opt = |v: Option<i64>| Val::Opt(v.map(|n| Box::new(Val::Int(n))));
+                let args = vec![
+                    Val::Bool(g.b0),
+                    Val::Bool(false),
+                    Val::Int(g.n0),
+                    Val::Int(g.n1),
+                    opt(g.o0),
+                    opt(None),
+                    Val::Enum(0),
+                    Val::Enum(0),
+                    Val::Bool(true),
+                ];
+                let key = format!("{text} :: {}", crate::c22::tuple_text_named(&SIG, &args));
+                out.push(Case {
+                    p: p.clone(),
+                    p_replaced: p.clone(),
+                    key,
+                    args,
+                    want: KV::I(taken),
+                    want_log,
+                    dead_slots: skipped + 1,
+                    nested: false,
+                    cond_family: true,
+                });
+            }
+        }
+    }
     out
 }
 
@@ -592,6 +836,9 @@ fn doc_text(cases: &[&Case], base: usize) -> String {
     s.push_str(HELPERS);
     for (i, c) in cases.iter().enumerate() {
         for (j, f) in [&c.p, &c.p_replaced].into_iter().enumerate() {
+            if j == 1 && c.cond_family {
+                continue;
+            }
             let mut d = f.clone();
             d.name = format!("f{}_{}", base + i, j);
             s.push_str(&print_fn(&d));
@@ -643,7 +890,11 @@ fn run_batch(rep: &mut Report, cases: &[&Case], base: usize) {
         let mut io_p = RecIo::new();
         let out_p = vmrun::run_function(&machine, &mut io_p, &format!("f{}_0", base + i), &vargs, &mut steps);
         let mut io_r = RecIo::new();
-        let out_r = vmrun::run_function(&machine, &mut io_r, &format!("f{}_1", base + i), &vargs, &mut steps);
+        let replaced_fn = if c.cond_family { format!("f{}_0", base + i) } else { format!("f{}_1", base + i) };
+        let out_r = vmrun::run_function(&machine, &mut io_r, &replaced_fn, &vargs, &mut steps);
+        if c.cond_family {
+            rep.count("condition_shape_cases", 1);
+        }
         rep.count("transitions", steps);
         rep.count("traces_validated_against_impl", 2);
         let log_p = io_p.ffi_log.borrow().clone();
@@ -730,12 +981,14 @@ pub fn run(args: &Args) {
     }
     rep.set("exhaustive", args.replay.is_none());
     rep.set("fillers", "todo(), test_fail(), helper with failing check, foreign call probe::hit, helper falling off a match on None, return -999");
+    rep.set("condition_shapes", "conditions X&&Y, X||Y, !(X&&Y), !(X||Y) over 14 atoms (==, !=, <, >, <=, >=, !b, b, is None, is Some, true, false, probe true/false) and six three-operand nestings over 7 (thorough 14) atoms, in the condition of if-else, if without else, else-if, if-expression, check and match-on-bool, under every distinct behaviour of 12 argument assignments; both branches are probes");
     rep.set("bounds", "every construct kind × every selector value × {selector as parameter, as literal} × every slot holding one nested construct (every kind × selector) × 6 fillers × bool payload");
     rep.assume("the harness FFI module `probe` logs exactly the foreign calls the VM makes (MachineIO::call)");
     if args.replay.is_none() {
         rep.require_nonzero("agree");
         rep.require_nonzero("programs_nested_two_deep");
         rep.require_nonzero("dead_slots");
+        rep.require_nonzero("condition_shape_cases");
     }
     rep.finish()
 }
